@@ -62,6 +62,9 @@ func newCatchEvent(wr *wiring, element *schema.CatchEvent) (evt *catchEvent, err
 
 func (evt *catchEvent) run(ctx context.Context, sender tracing.ISenderHandle) {
 	defer sender.Done()
+	// once the loop has ended nobody drains the inbox: the node does not
+	// listen any more, ConsumeEvent must not queue events for it
+	defer evt.activated.Store(false)
 
 	for {
 		select {
